@@ -55,6 +55,8 @@ def run(ctx):
 NODE = "cartgraph/node.py"
 G = "cartgraph/graph.py"
 MUTANTS = [
+    ("reused-clones-registered-again", G, "                self.new_nodes(new_clones)", "                self.new_nodes(clones)", "10"),
+    ("reused-clones-returned-again", G, "                test_nodes.extend(new_clones)", "                test_nodes.extend(clones)", "10"),
     ("one-sided-edge", NODE, "        self._setup_nodes[test_node] = self._setup_nodes.get(test_node, set()) | {\n            test_object\n        }\n",
      "        if test_node in self._setup_nodes:\n            self._setup_nodes[test_node] = self._setup_nodes[test_node] | {test_object}\n            return\n        self._setup_nodes[test_node] = self._setup_nodes.get(test_node, set()) | {\n            test_object\n        }\n", "1"),
     ("edge-deleted-elsewhere", NODE, "        self._dropped_setup_nodes.register(test_node, worker)", "        self._dropped_setup_nodes.register(test_node, worker)\n        self._setup_nodes.pop(test_node, None)", "1"),
